@@ -199,21 +199,11 @@ theorem registerExpects_refuses :
 
 /-! ### result conversion -/
 
-/-- `convertFactoryOutParams`: a missing error result is filled with a nil error, a surplus error result is dropped —
-after a panic with the error when it is not nil: the model's `convertOut` -/
-theorem convert_eq :
-    convertNumOutCases = "1,2" ∧
-    convertAppendCond = "len($[]reflect.Value) < $int" ∧
-    convertAppended = "$[]reflect.Value = append($[]reflect.Value, reflect.Zero(errorType))" ∧
-    convertTrimCond = "$int < len($[]reflect.Value)" ∧
-    convertTrimBody = "if !$[]reflect.Value[1].IsNil() { panic($[]reflect.Value[1].Interface()) } ; $[]reflect.Value = $[]reflect.Value[:1]" := by decide
-
-/-- a config error inside the closure of a component-constructor factory: panic for `func() Plugin`, the error result
-for `func() (Plugin, error)` — the model's `callFac (.wrapPlugin numOut)` -/
-theorem confErr_eq : confErrSwitch =
-    [("1", "panic($error)"),
-     ("2", "return []reflect.Value{reflect.Zero($*pluginConstructor.pluginType), reflect.ValueOf(&$error).Elem()}"),
-     ("default", "panic(other)")] := by decide
+/- Round 6: the former text readings `convert_eq` (convertFactoryOutParams) and `confErr_eq` (the config-error switch of the
+MakeFunc closure) are replaced by SEMANTIC ones — decision tables obtained by evaluating the Go functions on their whole
+abstract input space, proved equal to the model's `convertOut` / `callFac` in `Proofs/C18R6` (`convert_sem`, `confErr_sem`,
+`confErr_model`) and stated in `Props/C18` as `C18_convert`.  A behaviour-preserving rewrite of those functions (if instead of
+switch, swapped operands, early return) no longer breaks an obligation; a semantic change still does. -/
 
 /-! ### where user code is called -/
 
